@@ -756,7 +756,14 @@ impl Property for C03 {
                     }
                     3 => Op::Flush,
                     4 => {
-                        let key = if wr.chance(1, 8) { "avro.custom".to_string() } else { format!("user.{}", wr.below(3)) };
+                        let key = if wr.chance(1, 8) {
+                            "avro.custom".to_string()
+                        } else if wr.chance(1, 4) {
+                            // around the reserved "avro." namespace, but outside it
+                            wr.pick(&["avro", "avro_version", "avroschema", "avro-codec", "Avro.codec", "my.avro.schema", "", "a"]).to_string()
+                        } else {
+                            format!("user.{}", wr.below(3))
+                        };
                         let n = wr.usize_below(5);
                         Op::AddMeta(key, wr.bytes(n))
                     }
